@@ -47,6 +47,29 @@ def incomplete_bodies(ctx):
     ctx.coverage["incomplete_bodies"] = len(meta)
 
 
+def emitted_bodies(ctx):
+    """the function bodies as EMITTED (uigen/binding.rs): every temporary the C++ text of an eval / handler function mentions is declared in that function -- shapes where a
+    temporary has one use only (an element-write index, a discarded result, a value used in one arm)"""
+    from . import cxx, qml
+    import os
+    os.environ["VERIF_EXTRA_METATYPES"] = cxx.write_e0w()
+    vh = ctx.need_harness()
+    hs = ['{ let names = ["-", "-"]; names[a.i & 1] = a.s; b.s = names[0] + names[1] }', '{ let l = [1, 2]; l[a.b ? 1 : 0] = a.i; b.i = l[0] + l[1] }',
+          '{ let k = a.i & 1; let l = ["x", "y"]; l[k] = a.s; b.s = l[0] }', '{ a.compute(1); a.label(); let unused = a.i + 1; b.i = 2 }', '{ let l = ["a"]; l[0] = a.s; }',
+          '{ if (a.b) { let t = a.i; b.i = t } else { b.i = a.compute(2) } }', '{ switch (a.i) { case 1: b.s = a.label(); break; default: a.act(a.b ? 1 : 2) } }']
+    bs = [('{ let l = ["x", "y"]; l[a.b ? 1 : 0] = a.s; return l[0] }', "s"), ('{ let l = [1, 2]; l[a.i & 1] = a.i; return l[0] + l[1] }', "i"), ("a.b ? a.i : b.i + a.compute(1)", "i")]
+    docs = [cxx.document([], [("a", "onFired", h)]) for h in hs] + [cxx.document([("tgt", t, b)]) for b, t in bs]
+    for d, r in zip(docs, qml.run_docs(vh, docs)):
+        ctx.count(("emitted-body", d), True)
+        ctx.dist("emitted-body")
+        if not isinstance(r, dict) or not r.get("header") or r.get("has_error"):
+            continue
+        und = cxx.undeclared_temporaries(r["header"])
+        if und:
+            ctx.violation("the emitted function %s() reads or writes the temporary %s, which it neither declares nor assigns" % und[0],
+                          {"qml": d, "impl_output": r["header"], "theorem_or_correspondence": "S: every temporary is assigned before it is read -- in the emitted text"})
+
+
 def run(ctx):
     ctx.proof_leg(TARGETS, PINS, k_targets=tircheck.K_TARGETS)
     pool = tircheck.Pool(ctx)
@@ -56,6 +79,7 @@ def run(ctx):
         pool.add(tircheck.skeleton_statements(3 if ctx.tier == "thorough" else 2))
         pool.add(tircheck.expression_nestings())
         pool.add(tircheck.repeated_subexpressions())
+        emitted_bodies(ctx)
         pool.add_generated(12000 if ctx.tier == "thorough" else 1500, max_depth=4)
     pool.run()
     acc = 0
